@@ -47,7 +47,7 @@ extern struct inflate_state *g_hdr_state;
  * check needs, and the SAT solver does not find that intermediate fact through six symbolic steps
  * (> 1000 s).  HR_CUT, placed by the E_ hooks at the entry of each helper while it runs inlined in the
  * gzip reader (g_top == 1), first ASSERTS the fact (an obligation like any other) and then restates it
- * with GHOST_AXIOM so that the next segment starts from it.  An assumption that immediately follows an
+ * with an assumption (LEMMA of verif_common.h) so that the next segment starts from it.  An assumption that immediately follows an
  * assertion of the very same condition adds nothing that is not proved; it is a lemma, not an axiom.
  * g_in0/g_end/g_a0: entry snapshots (by assignment) taken in E_isal_read_gzip_header.  In the helpers'
  * own harnesses and in the zlib reader g_top == 0 (requires) and the cut is skipped. */
@@ -60,8 +60,7 @@ extern uint32_t g_a0;
          __CPROVER_POINTER_OFFSET(state->next_in) + state->avail_in == g_end)
 #define HR_CUT                                                                                     \
         if (g_top) {                                                                               \
-                __CPROVER_assert(HR_CUT_INV, "lemma: next_in + avail_in is still the end of the input"); \
-                GHOST_AXIOM(HR_CUT_INV);                                                           \
+                LEMMA(HR_CUT_INV); /* next_in + avail_in is still the end of the input */          \
         }
 #define E_buffer_header_copy HR_CUT
 #define E_string_header_copy HR_CUT
@@ -374,6 +373,16 @@ extern uint32_t g_a0;
 #endif
 /* the same device for the entry point (-DHR_FIX_BS=ISAL_GZIP_NAME ...): only the code behind that resume
  * label is explored */
+/* ... and for the size of the input chunk (-DHR_FIX_AIN=n): with T and avail_in both fixed below the field size
+ * only the "not all there yet" path of the first fixed_size_read is explored -- a cheap instance for what a
+ * resumed NEW_HDR call does with the carried bytes and the running header CRC */
+#ifdef HR_FIX_AIN
+#define GR_FIX_AIN_REQ __CPROVER_requires(state->avail_in == HR_FIX_AIN)
+#define GR_FIX_AIN_SET state->avail_in = HR_FIX_AIN;
+#else
+#define GR_FIX_AIN_REQ
+#define GR_FIX_AIN_SET
+#endif
 #ifdef HR_FIX_BS
 #define GR_FIX_BS_REQ __CPROVER_requires(state->block_state == HR_FIX_BS)
 #define GR_FIX_BS_SET state->block_state = HR_FIX_BS;
@@ -383,11 +392,13 @@ extern uint32_t g_a0;
 #endif
 #define E_isal_read_gzip_header                                                                    \
         GR_FIX_T_SET                                                                               \
+        GR_FIX_AIN_SET                                                                             \
         GR_FIX_BS_SET                                                                              \
         HR_TOP_ENTRY
 #define C_isal_read_gzip_header                                                                    \
         HR_STATE_FRESH                                                                             \
         GR_FIX_T_REQ                                                                               \
+        GR_FIX_AIN_REQ                                                                             \
         GR_FIX_BS_REQ                                                                              \
         __CPROVER_requires(__CPROVER_is_fresh(gz_hdr, sizeof(*gz_hdr)))                            \
         __CPROVER_requires(gz_hdr->extra == NULL ||                                                \
